@@ -41,6 +41,12 @@ def _build(a, memo):
     if c == "Imply":
         return pg.Imply(build(a["cond"], memo), build(a["cons"], memo), variable=var)
     args = [build(x, memo) for x in a["args"]]
+    form = a.get("$form")
+    if form and c in ("AtLeast", "AtMost"):
+        # the container the caller hands over: the constructor must accept any iterable, also a one-shot one
+        lst = args
+        args = {"tuple": lambda: tuple(lst), "gen": lambda: (x for x in lst), "iter": lambda: iter(lst),
+                "map": lambda: map(lambda x: x, lst)}.get(form, lambda: lst)()
     if c == "AtLeast":
         return pg.AtLeast(a["v"], args, variable=var, sign=a.get("sign"))
     if c == "AtMost":
@@ -301,10 +307,13 @@ class TreeGen:
             args.append(a)
         var = None
         if rng.random() < self.explicit_p and kind != "Not":
-            var = f"N{self.key()}"
+            # explicit ids come in several shapes; some look like generated ones ("VAR…"), some sort before / after leaf names
+            var = rng.choice(["N{}", "N{}", "N{}", "VAR{}", "VARIANT_{}", "n {}", "Ω{}", "A-{}"]).format(self.key())
             if self.prefix_p and rng.random() < self.prefix_p:
                 var = None  # prefixed variables are produced through assume in the properties that want them
         ast = {"$k": self.key()}
+        if kind in ("AtLeast", "AtLeastS", "AtMost") and rng.random() < 0.3:
+            ast["$form"] = rng.choice(["tuple", "gen", "iter", "map"])
         if kind == "Not":
             ast.update(c="Not", arg=args[0])
         elif kind == "Imply":
@@ -353,8 +362,73 @@ class TreeGen:
         raise RuntimeError("generator produced no compound model")
 
 
-def gen_valid(rng, quick=True, **kw):
-    """a validated, reference-free, single-definition model: (ast, fresh real object, snapshot)"""
+def twin_ast(rng, a):
+    """the same expression with the bounds of its non-boolean `var` leaves replaced by bounds that collide under
+    puan's hashes (Bounds.__hash__ = hash(lo)+hash(hi), hash(-1) == hash(-2)) and often keep a node's bound sums:
+    (lo-1,hi+1), (lo+1,hi-1), -1 <-> -2.  Ids, structure, signs and values are unchanged, so anything memoised on
+    __hash__/__eq__ or on ids alone confuses the twin with the original.  None if nothing can be changed."""
+    leaves = {}
+    def collect(x):
+        if isinstance(x, dict):
+            if x.get("c") == "var":
+                leaves.setdefault(x["id"], (x["lo"], x["hi"]))
+            for v in x.values(): collect(v)
+        elif isinstance(x, list):
+            for v in x: collect(v)
+    collect(a)
+    new, flip = {}, 1
+    for i, (lo, hi) in sorted(leaves.items()):
+        if hi - lo > 1000:
+            continue
+        opts = []
+        if (lo, hi) != (0, 1) or rng.random() < 0.3:
+            opts.append((lo - 1, hi + 1))
+            if lo + 1 <= hi - 1: opts.append((lo + 1, hi - 1))
+            if lo == -1: opts.append((-2, hi))
+            if lo == -2: opts.append((-1, hi))
+            if hi == -1 and lo <= -2: opts.append((lo, -2))
+            if hi == -2: opts.append((lo, -1))
+        if opts and rng.random() < 0.8:
+            # alternate widening / narrowing so that sums over a node's children tend to be kept
+            pref = [o for o in opts if (o[0] - lo) == flip] or opts
+            new[i] = rng.choice(pref); flip = -flip
+    if not new:
+        return None
+    def rebuild(x):
+        if isinstance(x, dict):
+            y = {k: rebuild(v) for k, v in x.items()}
+            if y.get("c") == "var" and y["id"] in new:
+                y["lo"], y["hi"] = new[y["id"]]
+            return y
+        if isinstance(x, list):
+            return [rebuild(v) for v in x]
+        return x
+    b = rebuild(a)
+    b["$twin"] = True
+    b["$twin_of"] = a       # kept for the replay: the original has to be handled first, in the same process
+    return b
+
+
+_LAST_AST = [None]
+
+
+def gen_valid(rng, quick=True, twins=True, **kw):
+    """a validated, reference-free, single-definition model: (ast, fresh real object, snapshot).
+    With probability 0.3 the model is a hash-colliding twin (`twin_ast`) of the model generated just before it, so
+    that both are handled in the same process one after the other."""
+    if twins and not kw.get("bool_only") and _LAST_AST[0] is not None and rng.random() < 0.3:
+        prev, _LAST_AST[0] = _LAST_AST[0], None
+        for _ in range(5):
+            b = twin_ast(rng, prev)
+            if b is None:
+                break
+            try:
+                o = build(b)
+                t = snap(o)
+                if not is_var(o) and well_formed(t) and not o.errors():
+                    return b, o, t
+            except Exception:
+                pass
     for _ in range(200):
         g = TreeGen(rng, n_leaves=rng.randint(2, 4 if quick else 6), max_depth=rng.randint(1, 3 if quick else 4), **kw)
         try:
@@ -366,6 +440,7 @@ def gen_valid(rng, quick=True, **kw):
             continue
         if o.errors():
             continue
+        _LAST_AST[0] = a
         return a, o, t
     raise RuntimeError("no valid model generated")
 
